@@ -8,28 +8,20 @@ Section DapStepProofs.
   Variable pcT spT opT retT : Z -> Z.
 
   Notation finT := (finT opT).
-  Notation over_loop := (over_loop pcT opT).
-  Notation out_loop := (out_loop opT).
+  Notation run_until_return := (run_until_return opT).
+  Notation step_over := (step_over opT).
+  Notation step_out := (step_out opT).
+  Notation call_depth := (call_depth opT).
+  Notation over_loop_pinned := (over_loop_pinned pcT opT).
   Notation out_loop_pinned := (out_loop_pinned pcT opT).
+  Notation step_over_pinned := (step_over_pinned pcT opT).
   Notation step_out_pinned := (step_out_pinned pcT spT opT retT).
-  Notation depthZ := (depthZ opT).
-  Notation step_over := (step_over pcT opT).
-  Notation step_out := (step_out spT opT).
   Notation exec_in := (exec_in opT).
+  Notation depthZ := (depthZ opT).
+  Notation depth := (depth opT).
 
-  (* every step command leaves the machine on the uninterrupted run, at or after where it started *)
-  Lemma over_loop_forward : forall fuel t i j, over_loop fuel t i = Some j -> i <= j.
-  Proof.
-    induction fuel; simpl; intros t i j H; try discriminate.
-    unfold DapStep.exec_in in H.
-    destruct (finT i) eqn:F.
-    - destruct (pcT i =? t); inversion H; lia.
-    - destruct (pcT (i + 1) =? t).
-      + inversion H; lia.
-      + apply IHfuel in H. lia.
-  Qed.
-
-  Lemma out_loop_forward : forall fuel n i j, out_loop fuel n i = Some j -> i <= j.
+  (* ---- every step command leaves the machine on the uninterrupted run, at or after where it started *)
+  Lemma run_until_return_forward : forall fuel n i j, run_until_return fuel n i = Some j -> i <= j.
   Proof.
     induction fuel; simpl; intros n i j H; try discriminate.
     destruct (finT i). { inversion H; lia. }
@@ -44,21 +36,152 @@ Section DapStepProofs.
   Proof.
     intros fuel i j [H|[H|H]].
     - unfold DapStep.step_over in H. destruct (is_jsr opT i).
-      + apply over_loop_forward in H; lia.
+      + apply run_until_return_forward in H; lia.
       + inversion H. unfold DapStep.exec_in. destruct (finT i); lia.
-    - unfold DapStep.step_out in H. destruct (spT i >? 253).
+    - unfold DapStep.step_out in H. destruct (call_depth (Z.to_nat i) =? 0).
       + inversion H; lia.
-      + apply out_loop_forward in H; lia.
+      + apply run_until_return_forward in H; lia.
     - subst. unfold DapStep.exec_in. destruct (finT i); lia.
   Qed.
 
-  (* the loop of step_over stops at the first later index whose pc is the target *)
-  Lemma over_loop_hit : forall d fuel i t,
+  (* ---- call depth *)
+  Definition delta (k : Z) : Z := if opT k =? 32 then 1 else if opT k =? 96 then -1 else 0.
+
+  Lemma depthZ_succ : forall k, 0 <= k -> depthZ (k + 1) = depthZ k + delta k.
+  Proof.
+    intros k Hk. unfold DapStepSpec.depthZ, delta.
+    replace (Z.to_nat (k + 1)) with (S (Z.to_nat k)) by lia.
+    simpl. rewrite Z2Nat.id by lia. reflexivity.
+  Qed.
+
+  Lemma run_until_return_depth : forall d fuel i j k nested,
+    0 <= i <= k -> k + Z.of_nat (S d) = j ->
+    nested = depthZ k - depthZ i -> 0 <= nested ->
+    depthZ j = depthZ i - 1 ->
+    (forall m, i < m < j -> depthZ m >= depthZ i) ->
+    (forall m, i <= m < j -> finT m = false) ->
+    (S d <= fuel)%nat ->
+    run_until_return fuel nested k = Some j.
+  Proof.
+    induction d; intros fuel i j k nested Hik Hj Hn Hn0 Hdj Hge Hfin Hfuel;
+      (destruct fuel; [lia|]); simpl; rewrite (Hfin k) by lia;
+      pose proof (depthZ_succ k ltac:(lia)) as HS; unfold delta in HS;
+      unfold is_jsr, is_rts.
+    - assert (Ej : j = k + 1) by lia. clear Hj. subst j.
+      destruct (opT k =? 32) eqn:E1; rewrite ?E1 in HS; [lia|].
+      destruct (opT k =? 96) eqn:E2; rewrite ?E2 in HS; [|lia].
+      destruct (nested =? 0) eqn:E0; [reflexivity|]. apply Z.eqb_neq in E0. lia.
+    - assert (k + 1 < j) by lia.
+      assert (depthZ (k + 1) >= depthZ i) by (apply Hge; lia).
+      destruct (opT k =? 32) eqn:E1; rewrite ?E1 in HS.
+      + apply (IHd fuel i j (k + 1) (nested + 1)); auto; lia.
+      + destruct (opT k =? 96) eqn:E2; rewrite ?E2 in HS.
+        * destruct (nested =? 0) eqn:E0. { apply Z.eqb_eq in E0. lia. }
+          apply Z.eqb_neq in E0.
+          apply (IHd fuel i j (k + 1) (nested - 1)); auto; lia.
+        * apply (IHd fuel i j (k + 1) nested); auto; lia.
+  Qed.
+
+  (* run_until_return ends on the first later index whose call depth is below the starting one *)
+  Lemma returns_from : forall fuel i j,
+    0 <= i < j ->
+    depthZ j = depthZ i - 1 ->
+    (forall m, i < m < j -> depthZ m >= depthZ i) ->
+    (forall m, i <= m < j -> finT m = false) ->
+    (Z.to_nat (j - i) <= fuel)%nat ->
+    run_until_return fuel 0 i = Some j.
+  Proof.
+    intros fuel i j Hij Hdj Hge Hfin Hfuel.
+    apply (run_until_return_depth (Z.to_nat (j - i - 1)) fuel i j i 0); auto; lia.
+  Qed.
+
+  (* `next` on a JSR is one step over the whole call: it lands where the call has returned -- also when the subroutine
+     calls itself through this very call site, whatever it pushes, wherever it jumps *)
+  Theorem next_over_call : forall fuel i j,
+    returns_at opT i j ->
+    (forall m, i <= m < j -> finT m = false) ->
+    (Z.to_nat (j - i) <= fuel)%nat ->
+    step_over fuel i = Some j.
+  Proof.
+    intros fuel i j [[H0 Hij] [Hop [Hdj Hbetween]]] Hfin Hfuel.
+    unfold DapStep.step_over, is_jsr. rewrite Hop. simpl.
+    pose proof (depthZ_succ i H0) as HS. unfold delta in HS. rewrite Hop in HS. simpl in HS.
+    assert (i + 1 < j).
+    { destruct (Z.eq_dec j (i + 1)); [subst; lia | lia]. }
+    apply returns_from; auto; try lia.
+    - intros m Hm. assert (depthZ m > depthZ i) by (apply Hbetween; lia). lia.
+    - intros m Hm. apply Hfin. lia.
+  Qed.
+
+  Theorem next_plain : forall fuel i, is_jsr opT i = false -> step_over fuel i = Some (exec_in i).
+  Proof. intros. unfold DapStep.step_over. rewrite H. reflexivity. Qed.
+
+  (* the runner's own counter is at least the depth gained since any earlier point *)
+  Lemma call_depth_nonneg : forall n, 0 <= call_depth n.
+  Proof.
+    induction n; simpl; [lia|].
+    destruct (is_jsr opT (Z.of_nat n)); [lia|]. destruct (is_rts opT (Z.of_nat n)); lia.
+  Qed.
+
+  Lemma call_depth_ge : forall n m, (m <= n)%nat -> call_depth n >= depth n - depth m.
+  Proof.
+    induction n; intros m Hm.
+    - assert (m = O) by lia. subst. simpl. lia.
+    - destruct (Nat.eq_dec m (S n)).
+      + subst. pose proof (call_depth_nonneg (S n)). lia.
+      + assert (Hm' : (m <= n)%nat) by lia. specialize (IHn m Hm').
+        simpl. unfold is_jsr, is_rts.
+        destruct (opT (Z.of_nat n) =? 32); [lia|].
+        destruct (opT (Z.of_nat n) =? 96); lia.
+  Qed.
+
+  (* `stepOut` lands on the first later index whose call depth is below the current one: where the subroutine the
+     machine is in has just returned -- whatever it pushed, however it recursed *)
+  Theorem stepout_returns : forall fuel i j,
+    0 <= i < j -> 0 < call_depth (Z.to_nat i) ->
+    depthZ j = depthZ i - 1 ->
+    (forall m, i < m < j -> depthZ m >= depthZ i) ->
+    (forall m, i <= m < j -> finT m = false) ->
+    (Z.to_nat (j - i) <= fuel)%nat ->
+    step_out fuel i = Some j.
+  Proof.
+    intros fuel i j Hij Hcd Hdj Hge Hfin Hfuel.
+    unfold DapStep.step_out.
+    assert (call_depth (Z.to_nat i) =? 0 = false) by (apply Z.eqb_neq; lia).
+    rewrite H. apply returns_from; auto.
+  Qed.
+
+  (* in terms of the frame: c is the call of i's frame and returns at j *)
+  Theorem stepout_after_call : forall fuel c i j,
+    frame_call opT c i -> returns_at opT c j ->
+    (forall m, i <= m < j -> finT m = false) ->
+    (Z.to_nat (j - i) <= fuel)%nat ->
+    i < j /\ step_out fuel i = Some j.
+  Proof.
+    intros fuel c i j [Hci [Hop [Hd Hin]]] Hret Hfin Hfuel.
+    pose proof Hret as [[Hc0 Hcj] [_ [Hdj Hbetween]]].
+    assert (i < j).
+    { destruct (Z_lt_le_dec i j); auto. exfalso.
+      assert (j = i \/ c < j < i) as [E|E] by lia.
+      - subst. lia.
+      - assert (depthZ j > depthZ c) by (apply Hin; lia). lia. }
+    split; auto.
+    apply stepout_returns; auto; try lia.
+    - pose proof (call_depth_ge (Z.to_nat i) (Z.to_nat c) ltac:(lia)). unfold DapStepSpec.depthZ in Hd. lia.
+    - intros m Hm. assert (depthZ m > depthZ c) by (apply Hbetween; lia). lia.
+  Qed.
+
+  (* outside any subroutine `stepOut` executes nothing *)
+  Theorem stepout_top_level : forall fuel i, call_depth (Z.to_nat i) = 0 -> step_out fuel i = Some i.
+  Proof. intros. unfold DapStep.step_out. rewrite H. reflexivity. Qed.
+
+  (* ---- the pinned runner *)
+  Lemma over_loop_pinned_hit : forall d fuel i t,
     (S d <= fuel)%nat ->
     pcT (i + Z.of_nat (S d)) = t ->
     (forall k, i < k < i + Z.of_nat (S d) -> pcT k <> t) ->
     (forall k, i <= k < i + Z.of_nat (S d) -> finT k = false) ->
-    over_loop fuel t i = Some (i + Z.of_nat (S d)).
+    over_loop_pinned fuel t i = Some (i + Z.of_nat (S d)).
   Proof.
     induction d; intros fuel i t Hf Hp Hn Hfin.
     - destruct fuel; [lia|]. simpl. unfold DapStep.exec_in.
@@ -96,38 +219,47 @@ Section DapStepProofs.
   Qed.
 
   (* what the CPU contributes: a call returns to the instruction after it (JSR pushes pc+2, the matching RTS pops it:
-     true of the 6502 for subroutines that leave the return address alone) *)
+     true of the 6502 for subroutines that leave the return address alone; proofs/DapCpuProofs.v) *)
   Definition returns_to_caller : Prop := forall c j, returns_at opT c j -> pcT j = pcT c + 3.
 
-  (* `next` on a JSR is one step over the whole call *)
-  Theorem next_over_call : forall fuel i j,
+  Lemma passes_false : forall n i k, passes_return_address pcT n i k = false ->
+    forall m, k <= m < k + Z.of_nat n -> pcT m <> pcT i + 3.
+  Proof.
+    induction n; intros i k H m Hm; [lia|].
+    simpl in H. apply Bool.orb_false_iff in H. destruct H as [A B].
+    destruct (Z.eq_dec m k).
+    - subst. apply Z.eqb_neq; auto.
+    - apply (IHn i (k + 1) B). lia.
+  Qed.
+
+  (* the pinned `next` was right unless the return address is passed inside the call *)
+  Theorem next_pinned_over_call : forall fuel i j,
     returns_to_caller ->
     returns_at opT i j ->
-    (forall k, i < k < j -> pcT k <> pcT i + 3) ->       (* the return address is not passed inside the call (no recursion through this call site) *)
+    Known_next_reenters_call_site pcT i j = false ->
     (forall k, i <= k < j -> finT k = false) ->
     (Z.to_nat (j - i) <= fuel)%nat ->
-    step_over fuel i = Some j.
+    step_over_pinned fuel i = Some j.
   Proof.
     intros fuel i j HR Hret Hn Hfin Hfuel.
     pose proof (HR i j Hret) as Hp.
     destruct Hret as [[H0 Hij] [Hop _]].
-    unfold DapStep.step_over, is_jsr. rewrite Hop. simpl.
+    unfold DapStep.step_over_pinned, is_jsr. rewrite Hop. simpl.
+    unfold Known_next_reenters_call_site in Hn.
+    pose proof (passes_false _ _ _ Hn) as Hn'.
     remember (Z.to_nat (j - i - 1)) as d.
     assert (j = i + Z.of_nat (S d)) by lia. subst j.
-    apply over_loop_hit; auto. lia.
+    apply over_loop_pinned_hit; auto; try lia.
+    intros k Hk. apply Hn'. lia.
   Qed.
 
-  Theorem next_plain : forall fuel i, is_jsr opT i = false -> step_over fuel i = Some (exec_in i).
-  Proof. intros. unfold DapStep.step_over. rewrite H. reflexivity. Qed.
-
-  (* the pinned `stepOut` with a clean stack (the two bytes above the stack pointer are the frame's return address) ran
-     to the instruction after the call *)
+  (* the pinned `stepOut` was right with a clean stack *)
   Theorem stepout_pinned_clean : forall fuel c i j,
     returns_to_caller ->
     frame_call opT c i -> returns_at opT c j -> i <= j ->
     Known_stepout_stack_dirty pcT retT c i = false ->
     spT i <= 253 ->
-    (forall k, i <= k < j -> pcT k <> pcT c + 3) ->        (* no recursion through the call site *)
+    (forall k, i <= k < j -> pcT k <> pcT c + 3) ->
     (forall k, i <= k < j -> finT k = false) ->
     (S (Z.to_nat (j - i)) <= fuel)%nat ->
     step_out_pinned fuel i = Some j.
@@ -142,88 +274,12 @@ Section DapStepProofs.
     assert (j = i + Z.of_nat d) by lia. subst j.
     apply out_loop_pinned_hit; auto.
   Qed.
-
-  (* ---- the repaired step_out: call depth *)
-  Definition delta (k : Z) : Z := if opT k =? 32 then 1 else if opT k =? 96 then -1 else 0.
-
-  Lemma depthZ_succ : forall k, 0 <= k -> depthZ (k + 1) = depthZ k + delta k.
-  Proof.
-    intros k Hk. unfold DapStepSpec.depthZ, delta.
-    replace (Z.to_nat (k + 1)) with (S (Z.to_nat k)) by lia.
-    simpl. rewrite Z2Nat.id by lia. reflexivity.
-  Qed.
-
-  Lemma out_loop_depth : forall d fuel i j k nested,
-    0 <= i <= k -> k + Z.of_nat (S d) = j ->
-    nested = depthZ k - depthZ i -> 0 <= nested ->
-    depthZ j = depthZ i - 1 ->
-    (forall m, i < m < j -> depthZ m >= depthZ i) ->
-    (forall m, i <= m < j -> finT m = false) ->
-    (S d <= fuel)%nat ->
-    out_loop fuel nested k = Some j.
-  Proof.
-    induction d; intros fuel i j k nested Hik Hj Hn Hn0 Hdj Hge Hfin Hfuel;
-      (destruct fuel; [lia|]); simpl; rewrite (Hfin k) by lia;
-      pose proof (depthZ_succ k ltac:(lia)) as HS; unfold delta in HS;
-      unfold is_jsr, is_rts.
-    - (* k + 1 = j *)
-      assert (Ej : j = k + 1) by lia. clear Hj. subst j.
-      destruct (opT k =? 32) eqn:E1; rewrite ?E1 in HS; [lia|].
-      destruct (opT k =? 96) eqn:E2; rewrite ?E2 in HS; [|lia].
-      destruct (nested =? 0) eqn:E0; [reflexivity|]. apply Z.eqb_neq in E0. lia.
-    - assert (k + 1 < j) by lia.
-      assert (depthZ (k + 1) >= depthZ i) by (apply Hge; lia).
-      destruct (opT k =? 32) eqn:E1; rewrite ?E1 in HS.
-      + apply (IHd fuel i j (k + 1) (nested + 1)); auto; lia.
-      + destruct (opT k =? 96) eqn:E2; rewrite ?E2 in HS.
-        * destruct (nested =? 0) eqn:E0. { apply Z.eqb_eq in E0. lia. }
-          apply Z.eqb_neq in E0.
-          apply (IHd fuel i j (k + 1) (nested - 1)); auto; lia.
-        * apply (IHd fuel i j (k + 1) nested); auto; lia.
-  Qed.
-
-  (* `stepOut` lands on the first later index whose call depth is below the current one: where the subroutine the
-     machine is in has just returned -- whatever it pushed, however it recursed *)
-  Theorem stepout_returns : forall fuel i j,
-    0 <= i < j -> spT i <= 253 ->
-    depthZ j = depthZ i - 1 ->
-    (forall m, i < m < j -> depthZ m >= depthZ i) ->
-    (forall m, i <= m < j -> finT m = false) ->
-    (Z.to_nat (j - i) <= fuel)%nat ->
-    step_out fuel i = Some j.
-  Proof.
-    intros fuel i j Hij Hsp Hdj Hge Hfin Hfuel.
-    unfold DapStep.step_out.
-    assert (spT i >? 253 = false) by (rewrite Z.gtb_ltb; apply Z.ltb_ge; lia).
-    rewrite H.
-    apply (out_loop_depth (Z.to_nat (j - i - 1)) fuel i j i 0); auto; lia.
-  Qed.
-
-  (* in terms of the frame: c is the call of i's frame and returns at j *)
-  Theorem stepout_after_call : forall fuel c i j,
-    frame_call opT c i -> returns_at opT c j -> spT i <= 253 ->
-    (forall m, i <= m < j -> finT m = false) ->
-    (Z.to_nat (j - i) <= fuel)%nat ->
-    i < j /\ step_out fuel i = Some j /\ (returns_to_caller -> pcT j = pcT c + 3).
-  Proof.
-    intros fuel c i j [Hci [Hop [Hd Hin]]] Hret Hsp Hfin Hfuel.
-    pose proof Hret as [[Hc0 Hcj] [_ [Hdj Hbetween]]].
-    assert (i < j).
-    { destruct (Z_lt_le_dec i j); auto. exfalso.
-      assert (j = i \/ c < j < i) as [E|E] by lia.
-      - subst. lia.
-      - assert (depthZ j > depthZ c) by (apply Hin; lia). lia. }
-    split; auto. split.
-    - apply stepout_returns; auto; try lia.
-      intros m Hm. assert (depthZ m > depthZ c) by (apply Hbetween; lia). lia.
-    - intro HR. apply HR; auto.
-  Qed.
-
 End DapStepProofs.
+
+Definition nthZ (l : list Z) (i : Z) : Z := nth (Z.to_nat i) l 0.
 
 (* ---- the witness of F-C19b: corpus/C19/stepout_after_pha.asm
         ldx #0 / lda #7 / jsr sub / inx / brk / sub: pha / nop / pla / rts     (uninterrupted run, 9 instruction indices) *)
-Definition nthZ (l : list Z) (i : Z) : Z := nth (Z.to_nat i) l 0.
 Definition w_pc := nthZ [49152; 49154; 49156; 49161; 49162; 49163; 49164; 49159; 49160].
 Definition w_sp := nthZ [253; 253; 253; 251; 250; 250; 251; 253; 253].
 Definition w_op := nthZ [162; 169; 32; 72; 234; 104; 96; 232; 0].
@@ -235,7 +291,7 @@ Theorem stepout_dirty_refuted :
   frame_call w_op 2 4 /\ returns_at w_op 2 7 /\ w_pc 7 = w_pc 2 + 3 /\
   Known_stepout_stack_dirty w_pc w_ret 2 4 = true /\
   step_out_pinned w_pc w_sp w_op w_ret 100 4 = Some 8 /\
-  step_out w_sp w_op 100 4 = Some 7.
+  step_out w_op 100 4 = Some 7.
 Proof.
   assert (D : forall k, 2 < k < 7 -> depthZ w_op k > depthZ w_op 2).
   { intros k Hk. assert (k = 3 \/ k = 4 \/ k = 5 \/ k = 6) as [E|[E|[E|E]]] by lia; subst; vm_compute; reflexivity. }
@@ -244,7 +300,24 @@ Proof.
   - exact D.
 Qed.
 
-(* ... while on `pha` itself (index 3, nothing pushed yet) it lands after the call *)
-Example stepout_clean_witness : step_out_pinned w_pc w_sp w_op w_ret 100 3 = Some 7 /\ step_out w_sp w_op 100 3 = Some 7 /\
-  step_over w_pc w_op 100 2 = Some 7.
-Proof. vm_compute. repeat split; reflexivity. Qed.
+(* ---- recursion through one call site: corpus/C19/recursive_next.asm
+        ldy #3 / jsr rec / brk / rec: dey / beq done / jsr rec / done: inx / rts      (17 instruction indices) *)
+Definition r_pc := nthZ [49152; 49154; 49158; 49159; 49161; 49158; 49159; 49161; 49158; 49159; 49164; 49165; 49164; 49165; 49164; 49165; 49157].
+Definition r_op := nthZ [160; 32; 136; 240; 32; 136; 240; 32; 136; 240; 232; 96; 232; 96; 232; 96; 0].
+
+(* `next` on the `jsr rec` inside the first activation (index 4): the call returns at index 14; the pinned step_over stopped
+   at index 10, two activations deeper, because the return address is passed there; the repaired one lands on 14.
+   `stepOut` from the innermost activation (index 10) lands in the activation that called it (index 12), not further out. *)
+Theorem next_recursion_refuted :
+  returns_at r_op 4 14 /\ r_pc 14 = r_pc 4 + 3 /\
+  Known_next_reenters_call_site r_pc 4 14 = true /\
+  step_over_pinned r_pc r_op 100 4 = Some 10 /\
+  step_over r_op 100 4 = Some 14 /\
+  step_out r_op 100 10 = Some 12.
+Proof.
+  assert (D : forall k, 4 < k < 14 -> depthZ r_op k > depthZ r_op 4).
+  { intros k Hk.
+    assert (k = 5 \/ k = 6 \/ k = 7 \/ k = 8 \/ k = 9 \/ k = 10 \/ k = 11 \/ k = 12 \/ k = 13)
+      as [E|[E|[E|[E|[E|[E|[E|[E|E]]]]]]]] by lia; subst; vm_compute; reflexivity. }
+  repeat split; try (vm_compute; congruence); try lia. exact D.
+Qed.
